@@ -31,6 +31,82 @@ let parse_frames s =
         fstat = (match st with "g" -> Good | "b" -> BadBlock | "f" -> BadFrame | _ -> failwith "status") }
     | _ -> failwith "frame") (split_on ',' s)
 
+
+(* ---- MultithreadedReader op histories (kind rh): parsing and printing only ---------------- *)
+let pattern len a m = List.init len (fun i -> byte_tbl.((a + i * m) mod 251))
+
+(* frames: "method:len:a:m:csize" (format of C02's hist kind) *)
+let parse_hframes s =
+  if s = "_" then [] else
+  List.map (fun p -> match split_on ':' p with
+    | [_; l; a; m; cs] ->
+        { csize = n_of_int (int_of_string cs);
+          fdata = pattern (int_of_string l) (int_of_string a) (int_of_string m) }
+    | _ -> failwith "hframe") (split_on ',' s)
+
+let parse_index s =
+  if s = "_" then [] else
+  List.map (fun p -> match split_on ':' p with
+    | [c; u] -> (n_of_dec c, n_of_dec u) | _ -> failwith "index") (split_on ',' s)
+
+let parse_rop p =
+  let t = String.sub p 1 (String.length p - 1) in
+  match p.[0] with
+  | 'r' -> Read (n_of_dec t)
+  | 'x' -> ReadExact (n_of_dec t)
+  | 's' -> ReadExactStd (n_of_dec t)
+  | 'f' -> FillBuf
+  | 'c' -> Consume (n_of_dec t)
+  | 'k' -> (match split_on ':' t with
+            | [c; u] -> Seek (pack (n_of_dec c) (n_of_dec u)) | _ -> failwith "seek")
+  | 'u' -> SeekU (n_of_dec t)
+  | 'a' -> ReadAll (n_of_dec t)
+  | _ -> failwith "rop"
+
+let parse_mops s =
+  if s = "_" then [] else
+  List.map (fun p -> if p = "g" then GetMut else if p = "z" then Finish else MOp (parse_rop p)) (split_on ',' s)
+
+(* schedule segments: one per pull, ';' between pulls, '.' between action numbers *)
+let parse_segs s =
+  if s = "_" then [] else
+  List.map (fun seg ->
+    if seg = "" || seg = "-" then [] else
+    List.map (fun t -> nat_of_int (int_of_string t)) (split_on '.' seg)) (split_on ';' s)
+
+let canon_bytes bs =
+  let n = List.length bs in
+  if n <= 16 then hex_of_bytes bs
+  else Printf.sprintf "#%d:%d" n (List.fold_left (fun h b -> mix h (int_of_n b)) 0 bs)
+
+let err_name = function
+  | UnexpectedEof -> "UnexpectedEof" | InvalidData -> "InvalidData" | InvalidInput -> "InvalidInput"
+
+let show_res f = function
+  | Ok a -> f a
+  | Err e -> "Err:" ^ err_name e
+  | Panic -> "Panic"
+  | OutOfFuel -> "OutOfFuel"
+  | Unmodelled -> "?"
+
+let show_vp v = dec_of_n (vcomp v) ^ ":" ^ dec_of_n (vuncomp v)
+
+let show_out = function
+  | OBytes r -> show_res canon_bytes r
+  | OUnit -> "."
+  | OPos r -> show_res dec_of_n r
+
+let is_panic_out = function OBytes Panic | OPos Panic -> true | _ -> false
+
+let show_steps steps =
+  let rec go acc = function
+    | [] -> List.rev acc
+    | (o, vp) :: r ->
+        let s = show_out o ^ "@" ^ show_res show_vp vp in
+        if is_panic_out o || vp = Panic then List.rev (s :: acc) else go (s :: acc) r in
+  let parts = go [] steps in
+  if parts = [] then "_" else String.concat " " parts
+
 let handle kind a =
   match kind with
   | "w" ->
@@ -49,6 +125,14 @@ let handle kind a =
        | Some (((got, v), rerr), ferr) ->
            Some (Printf.sprintf "%s|cpos=%s|rerr=%s|ferr=%s" (fmt_blks got) (dec_of_n v) (b2s rerr) (b2s ferr))
        | None -> Some "Stuck")
+  | "rh" ->
+      (* P frames gzi ops segs policy seed : MultithreadedReader op history under the schedule segs *)
+      let p = nat_of_int (int_of_string a.(0)) in
+      Some (show_steps (c03_mt_reader_case p (parse_segs a.(4)) (parse_hframes a.(1)) (parse_index a.(2)) (parse_mops a.(3))))
+  | "rhst" ->
+      (* frames gzi ops : the same history on the single-threaded Reader (no g / z ops) *)
+      let ops = List.filter_map (function MOp o -> Some o | _ -> None) (parse_mops a.(2)) in
+      Some (show_steps (c03_st_reader_case (parse_hframes a.(0)) (parse_index a.(1)) ops))
   | _ -> None
 
 let () = run_driver handle
